@@ -121,14 +121,6 @@ Definition select_matches (x : excl) (src_base : str) (tree : list tentry) (p se
     Some (if is_empty pat then [s_dot]     (* Glob(srcDir) = the root; Rel gives "." *)
           else map t_path (filter (fun e => gmatch pat (t_path e)) tree)).
 
-(** Byte-wise string order (Go's [<] on strings). *)
-Fixpoint str_ltb (a b : str) : bool :=
-  match a, b with
-  | _, [] => false
-  | [], _ :: _ => true
-  | x :: a', y :: b' => (x <? y) || ((x =? y) && str_ltb a' b')
-  end.
-
 Fixpoint insert_str (x : str) (l : list str) : list str :=
   match l with
   | [] => [x]
